@@ -375,3 +375,35 @@ crate::harness! {
         data_seed_reproduces(u64::MAX);
     }
 }
+
+// ---- C10: reseeding with symbolic seeds of bounded width -----------------------------------------------------
+fn reseed_bits<const BITS: u32>() {
+    let s0: u64 = kani::any();
+    if BITS < 64 {
+        kani::assume(s0 < (1u64 << BITS));
+    }
+    let mut a = RandomDataSource::initialize(s0);
+    let r1 = a.reinitialize();
+    assert!(r1 == s0, "C10: first execution does not report the construction seed");
+    let d1 = a.next_u64();
+    let mut b = RandomDataSource::initialize(r1);
+    let rb = b.reinitialize();
+    assert!(rb == r1 && b.next_u64() == d1, "C10: reported seed does not reproduce the data stream");
+    let r2 = a.reinitialize();
+    let d2 = a.next_u64();
+    let mut c = RandomDataSource::initialize(r2);
+    let rc = c.reinitialize();
+    assert!(rc == r2 && c.next_u64() == d2, "C10: seed reported for the second execution does not reproduce its data stream");
+}
+crate::harness! {
+    #[kani::unwind(6)]
+    fn c10_reseed_bits8() { reseed_bits::<8>(); }
+}
+crate::harness! {
+    #[kani::unwind(6)]
+    fn c10_reseed_bits16() { reseed_bits::<16>(); }
+}
+crate::harness! {
+    #[kani::unwind(6)]
+    fn c10_reseed_bits64() { reseed_bits::<64>(); }
+}
